@@ -9,17 +9,16 @@ Definition sx_item (x : sx) : option item :=
   | SL [SI 0; SI c] => Some (Ch c)
   | SL [SI 1; SI i] => Some (Sp i)
   | SL [SI 2; SI s; SI g; SI i] => Some (Ext s g i)
-  | SL [SI 3] => Some MidItalic
-  | SL [SI 4] => Some MidPlain
+  | SL [SI 3; SI a] => Some (Mid a)
   | SL [SI 5] => Some Bs
   | _ => None
   end.
 Definition sx_row (x : sx) : option row :=
   match x with
-  | SL [SI r; SI ind; SI tab; it; items] =>
-      match sx_bool it, sx_listof sx_item items with
-      | Some it, Some items => Some (mkRow r ind tab it items)
-      | _, _ => None
+  | SL [SI r; SI ind; SI tab; SI st; items] =>
+      match sx_listof sx_item items with
+      | Some items => Some (mkRow r ind tab st items)
+      | None => None
       end
   | _ => None
   end.
